@@ -13,7 +13,8 @@
 //	| {"ev":"conc","ops":[op,...]}                       ops run by concurrent goroutines
 //	| {"ev":"sched","ops":[op,...],"steps":[{"a":"start"|"release","i":n} | {"a":"fire"},...]}
 //	     directed schedule: a response op with "gate":true stops at the yield point
-//	     cache.set.checked (between the size test and the insertion) until released
+//	     cache.set.checked (between the size test and the insertion) until released; with "sgate":true (typ mem) it
+//	     stops inside the size function while it measures the entry it is about to replace
 //
 // One tick = 250 ms, one size unit = 1 KiB. The executor is a pure executor: no oracle logic.
 package main
@@ -23,6 +24,7 @@ import (
 	"math"
 	"os"
 	"path/filepath"
+	"runtime"
 	"strconv"
 	"strings"
 	"sync"
@@ -76,6 +78,7 @@ type Op struct {
 	Hdr   int64             `json:"hdr,omitempty"`
 	Sz    int               `json:"sz,omitempty"`
 	Gate  bool              `json:"gate,omitempty"`
+	SGate bool              `json:"sgate,omitempty"`
 	Lag   int               `json:"lag,omitempty"`
 	Ops   []Op              `json:"ops,omitempty"`
 	Steps []Step            `json:"steps,omitempty"`
@@ -101,6 +104,7 @@ type runner struct {
 	mu     sync.Mutex
 	bodies map[string]string // tag -> body handed to the real code
 	gates  map[string]*gate  // tag -> gate of a running gated response op
+	sgates map[string]*gate  // cache key -> gate of a writer held in the size function (typ mem)
 }
 
 type gate struct {
@@ -108,6 +112,25 @@ type gate struct {
 	release chan struct{}
 	done    chan struct{}
 	once    sync.Once
+	tag     string // value tag of the held writer
+}
+
+// sizeGate is a yield point inside the size function the harness hands to MemoryCache: a writer ("sgate") is held while
+// it measures the entry it is about to replace - wherever the code under test does that, under its lock or outside it.
+func (rn *runner) sizeGate(key, value string) {
+	rn.mu.Lock()
+	g := rn.sgates[key]
+	rn.mu.Unlock()
+	if g == nil || tagOf(value) == g.tag {
+		return // not held, or the writer measures its own new value
+	}
+	buf := make([]byte, 8192)
+	st := string(buf[:runtime.Stack(buf, false)])
+	if strings.Contains(st, "clearKey") { // the clean-up goroutine measuring what it removes
+		return
+	}
+	g.once.Do(func() { close(g.reached) })
+	<-g.release
 }
 
 func tagOf(body string) string {
@@ -149,6 +172,7 @@ func (rn *runner) fresh(now int64) {
 	rn.clk = c12q.NewClock(at(now))
 	rn.bodies = map[string]string{}
 	rn.gates = map[string]*gate{}
+	rn.sgates = map[string]*gate{}
 	rn.cache, rn.thr, rn.mem = nil, nil, nil
 	switch rn.cfg.Typ {
 	case "cache":
@@ -178,6 +202,7 @@ func (rn *runner) fresh(now int64) {
 		rn.mem = utils.NewMemoryCache[string, string](rn.clk)
 		if rn.cfg.Max >= 0 {
 			rn.mem.WithMaxCacheSize(func(k, v string) float64 {
+				rn.sizeGate(k, v)
 				return float64(len(k)+len(v)) / 1024 / 1024
 			}, float64(rn.cfg.Max)/1024)
 		}
@@ -485,7 +510,13 @@ func main() {
 						if st.A == "fire" { // wake the sleeping clean-up goroutines in the middle of the schedule
 							if rn.clk.FireDue() > 0 {
 								rn.quiesce("sched fire")
-								cur, n := rn.snapshot()
+								cur, n := int64(-1), -1
+								rn.mu.Lock()
+								holding := len(rn.sgates) > 0 // a writer held in the size function may hold the cache's lock
+								rn.mu.Unlock()
+								if !holding {
+									cur, n = rn.snapshot()
+								}
 								tr.Add(vh.Ev{"ev": "fire", "cur": cur, "n": n})
 							}
 							continue
@@ -501,6 +532,12 @@ func main() {
 							if o.Op == "resp" && o.Gate {
 								rn.mu.Lock()
 								rn.gates[o.V] = g
+								rn.mu.Unlock()
+							}
+							if o.Op == "resp" && o.SGate && rn.mem != nil {
+								g.tag = o.V
+								rn.mu.Lock()
+								rn.sgates[rn.memKey(o)] = g
 								rn.mu.Unlock()
 							}
 							id++
@@ -519,6 +556,13 @@ func main() {
 							if g == nil {
 								vh.Die("sched: release before start of op %d", st.I)
 							}
+							rn.mu.Lock()
+							for k, x := range rn.sgates {
+								if x == g {
+									delete(rn.sgates, k)
+								}
+							}
+							rn.mu.Unlock()
 							select {
 							case <-g.release:
 							default:
@@ -550,6 +594,7 @@ func main() {
 					}
 					rn.mu.Lock()
 					rn.gates = map[string]*gate{}
+					rn.sgates = map[string]*gate{}
 					rn.mu.Unlock()
 					rn.quiesce("sched")
 				default:
